@@ -299,3 +299,117 @@ def c09_r4(ctx):
             dnf = q.cond_of_block(facts, nx, bi)
             if not q.cond_has(dnf, lambda a: a[0] == 'is' and a[2] == side):
                 ctx.viol('%s|wrong-stash|%s' % (nx.path, st), t['at'], 'an element that is not a %s element is stashed in %s' % (side, st), None)
+
+
+BSR = 'renoir::operator::start::binary::BinaryStartReceiver'
+
+
+def select_symmetry(ctx):
+    """BinaryStartReceiver::select serves two inputs that play the same role. Whatever it does with one side (which receive
+    primitive, with which timeout, which cache / reset operation) it must do with the other side in the mirrored situation:
+      (1) the multiset of side operations {(callee, arguments)} is closed under left<->right;
+      (2) where the two sides are handled together (same block condition for the same operation on both sides), that condition is
+          itself symmetric.
+    Priority between the sides (`if left.cached .. else if right.cached`) only shows in the *conditions* of one-sided operations,
+    which are not compared."""
+    facts = ctx.facts
+    sel = facts.method(BSR, 'select')
+    sym = q.sym(facts, sel)
+    ev = []
+    for bi, t in sel.calls():
+        p = t['callee'].get('path') or ''
+        if t.get('x') and ('debug_assert' in t.get('x', '') or 'log' in t.get('x', '')):
+            continue
+        args = [render(strip(sym.operand(a))) for a in t['args']]
+        txt = ' '.join(args)
+        if not re.search(r'\b(left|right)\b', txt):
+            continue
+        if re.search(r'\bleft\b', txt) and re.search(r'\bright\b', txt):
+            continue        # an operation on both sides at once (select over the two receivers) is its own mirror image
+        name = '::'.join(p.split('::')[-2:])
+        if name.endswith(('is_ended', 'is_terminated', 'cache_finished', 'as_mut', 'unwrap', 'deref', 'deref_mut', 'fmt', 'clone')) or 'fmt::' in p or 'panicking' in p:
+            continue
+        ev.append((bi, t, name, tuple(a[:160] for a in args)))
+    if len(ev) < 8:
+        raise AnchorMissing('BinaryStartReceiver::select: fewer than 8 side operations found (%d)' % len(ev))
+    from collections import Counter
+    cnt = Counter((n_, a_) for _, _, n_, a_ in ev)
+    ctx.inst('select|side operations', {'operations': sorted('%s(%s)' % (n_, ', '.join(x[-50:] for x in a_)) for n_, a_ in cnt)[:24], 'count': len(ev)})
+    for (n_, a_), c in sorted(cnt.items()):
+        m = (n_, tuple(mirror_text(x) for x in a_))
+        if cnt.get(m, 0) != c:
+            site = [t for _, t, n2, a2 in ev if (n2, a2) == (n_, a_)][0]
+            ctx.viol('%s|asymmetric|%s' % (sel.path, n_), site['at'],
+                     'BinaryStartReceiver::select performs `%s(%s)` %d time(s) but the mirrored operation `%s(%s)` %d time(s): the two '
+                     'inputs are not treated alike (one side can be starved, waited on after it ended, or polled without the timeout)'
+                     % (n_, ', '.join(x[-60:] for x in a_), c, m[0], ', '.join(x[-60:] for x in m[1]), cnt.get(m, 0)), None)
+    # (2) joint handling: same operation on both sides under the same condition -> the condition must be symmetric
+    by_block = {}
+    for bi, t, n_, a_ in ev:
+        by_block.setdefault(bi, []).append((n_, a_, t))
+    import itertools
+
+    def as_lits(dnf):
+        """clauses as sets of (variable text, polarity); non-boolean atoms become opaque variables"""
+        out = []
+        for c in dnf:
+            lits = set()
+            for a in c:
+                if a[0] == 'bool':
+                    lits.add((a[1], bool(a[2])))
+                else:
+                    lits.add((q.show_dnf([[a]])[0], True))
+            out.append(lits)
+        return out
+
+    def equivalent(d1, d2):
+        vs = sorted({v for c in d1 + d2 for v, _ in c})
+        if len(vs) > 14:
+            return None
+        for combo in itertools.product([False, True], repeat=len(vs)):
+            val = dict(zip(vs, combo))
+            r1 = any(all(val[v] == pol for v, pol in c) for c in d1)
+            r2 = any(all(val[v] == pol for v, pol in c) for c in d2)
+            if r1 != r2:
+                return False
+        return True
+    conds = {}
+    for bi, t, n_, a_ in ev:
+        conds[(bi, n_, a_)] = as_lits(q.cond_of_block(facts, sel, bi))
+    seen = set()
+    for (bi, n_, a_), d in conds.items():
+        m = (n_, tuple(mirror_text(x) for x in a_))
+        if m == (n_, a_):
+            continue
+        for (b2, n2, a2), d2 in conds.items():
+            if (n2, a2) == m and equivalent(d, d2) and (min(bi, b2), max(bi, b2), n_) not in seen:
+                seen.add((min(bi, b2), max(bi, b2), n_))
+                md = [{(mirror_text(v), pol) for v, pol in c} for c in d]
+                okm = equivalent(md, d)
+                ctx.inst('select|joint %s' % n_, {'condition': sorted(sorted('%s%s' % ('' if pol else '!', v[-50:]) for v, pol in c) for c in d)[:3], 'symmetric': okm})
+                if okm is False:
+                    site = [t for _, t, n3, a3 in ev if (n3, a3) == (n_, a_)][0]
+                    ctx.viol('%s|asymmetric-condition|%s' % (sel.path, n_), site['at'],
+                             'both sides are `%s` under the same condition, which is not symmetric in left/right (%s): one side\'s state '
+                             '(ended / cache finished) is not consulted before both are handled'
+                             % (n_, sorted(sorted('%s%s' % ('' if pol else '!', v[-40:]) for v, pol in c) for c in d)[:2]), None)
+
+
+@rule('C11', 'R4', 'binary start treats its two inputs symmetrically (receive primitive, timeout, cache and reset operations)')
+def c11_r4(ctx):
+    select_symmetry(ctx)
+
+
+@rule('C09', 'R5', 'merge / zip / join inputs are polled symmetrically: no side is waited on after it ended, none is starved')
+def c09_r5(ctx):
+    select_symmetry(ctx)
+
+
+@rule('C18', 'R7', 'the receive timeout that drives FlushBatch is passed to whichever side is polled')
+def c18_r7(ctx):
+    select_symmetry(ctx)
+
+
+@rule('C04', 'R9', 'two-input blocks keep receiving from the side that is still alive')
+def c04_r9(ctx):
+    select_symmetry(ctx)
